@@ -507,6 +507,9 @@ class Replayer:
                     side.colmap[cid] = res[n]
                 except Exception:  # noqa: BLE001
                     pass
+        if bk != "polars" and not side.marker and hasattr(res, "_ast"):
+            # the code may have turned an alias() of the pipeline into a subquery without raising
+            side.marker = any(type(nd).__name__ == "SubqueryMarker" for nd in res._ast.iter_subtree_preorder())
         if bk != "polars" and m["v"] == "slice_head" and side.marker:
             # LIMIT in an outer query without its own ORDER BY: which rows survive is not determined
             side.datadef = False
